@@ -147,9 +147,24 @@ func placeExec(c *Ctx, op string) {
 			c.PropFail("placement-tree", how+" does not show exactly the ware's fileset: "+DiffFilesets(want, got, true), op)
 		}
 	}
+	envOvl := false
 	for _, o := range ops {
 		x := strings.Split(o, ":")
 		switch x[0] {
+		case "env":
+			// the placer's work area sits on an overlayfs itself (a container's root filesystem): the kernel refuses
+			// it as an upperdir (EINVAL), so mount placements may fail here — but must never touch the shelf
+			ol, ou, ow, om := filepath.Join(base, "ovl-l"), filepath.Join(base, "ovl-u"), filepath.Join(base, "ovl-w"), filepath.Join(base, "ovl-m")
+			for _, d := range []string{ol, ou, ow, om} {
+				os.MkdirAll(d, 0755)
+			}
+			if e := syscall.Mount("none", om, "overlay", 0, fmt.Sprintf("lowerdir=%s,upperdir=%s,workdir=%s", ol, ou, ow)); e == nil {
+				envOvl = true
+				os.Setenv("RIO_MOUNT_WORKDIR", filepath.Join(om, "work"))
+				defer os.Unsetenv("RIO_MOUNT_WORKDIR")
+				defer syscall.Unmount(om, syscall.MNT_DETACH)
+			}
+			c.H(fmt.Sprintf("op:env:ovlwork=%v", envOvl))
 		case "other":
 			tartrans.Unpack(ctx, id2, "-", uf, rio.Placement_None, wh, rio.Monitor{})
 			c.H("op:other")
@@ -175,7 +190,9 @@ func placeExec(c *Ctx, op string) {
 				return tartrans.Unpack(ctx, id, d, uf, rio.PlacementMode(mode), wh, rio.Monitor{})
 			})
 			if resTok(id3, e3, pan3) != "ok "+id.Hash {
-				if !(mode == "direct" && pre != "absent") { // direct placement over existing content is not promised to work
+				if envOvl && mode == "mount" {
+					c.H("op:u:mount:refused-in-ovl-env")
+				} else if !(mode == "direct" && pre != "absent") { // direct placement over existing content is not promised to work
 					c.PropFail("placement-failed", fmt.Sprintf("unpack(%s) over %s destination: %s", mode, pre, resTok(id3, e3, pan3)), op)
 				}
 			} else if mode != "none" {
@@ -223,6 +240,12 @@ func placeExec(c *Ctx, op string) {
 				}
 			case "bindro":
 				jan, e = placer.BindPlacer(fs.MustAbsolutePath(shelf), fs.MustAbsolutePath(d), false)
+			}
+			if e != nil && envOvl && x[1] == "mountrw" {
+				c.H("op:p:mountrw:refused-in-ovl-env")
+				pls = append(pls, pl{dst: d, kind: x[1]})
+				checkShelf("after a refused placement by " + x[1])
+				continue
 			}
 			if e != nil {
 				c.PropFail("placement-failed", "placer "+x[1]+" failed: "+e.Error(), op)
@@ -378,6 +401,9 @@ func placeEngine(c *Ctx) {
 			}
 		}
 		var ops []string
+		if k%6 == 3 {
+			ops = append(ops, "env:ovlwork")
+		}
 		if k%2 == 1 { // cold cache first warmed by an unpack with an altering filter
 			ops = append(ops, "alt:"+[]string{"copy", "none", "mount"}[c.Intn(3)])
 		}
